@@ -2,6 +2,7 @@ import LhasaV.Lemmas.Wrap
 import LhasaV.Lemmas.LhNewSafe
 import LhasaV.Lemmas.SmallSafe
 import LhasaV.Lemmas.PmSafe
+import LhasaV.Lemmas.Lh1Safe
 import LhasaV.Model.Decoders
 /-!
 # C09 — no compressed data can make any decompressor touch invalid memory
@@ -81,6 +82,24 @@ theorem pm1_no_fault (src : Src) (n : Nat) (s : Pm1.St) (hs : Dec.Reach Pm1.dec 
     (∀ w, Pm1.read s ≠ .fault w) ∧ (∀ out s', Pm1.read s = .ok (out, s') → out.length ≤ Gen.pm1MaxRead) :=
   have hi := Dec.reach_inv Pm1.dec Pm1.Inv Pm1.init_inv (fun s h o s' hr => Pm1.read_inv s h o s' hr) src n s hs
   ⟨Pm1.read_no_fault s hi, fun out s' hr => Pm1.read_len s hi out s' hr⟩
+
+/-! ### -lh1- (adaptive Huffman, frequency groups, periodic rebuild) -/
+
+/-- For ANY input bytes: the tree walk, `nodes[node_index - 1]`, the group free-list
+(`alloc_group` / `free_group`), the parent chain to the root, the whole `reconstruct_tree` and the
+offset lookup stay in bounds; at most 60 bytes per inner read. The invariant behind it
+(`Lh1.Inv`): tree shape, frequencies sorted and equal to the sum of the children, groups = maximal
+runs of equal frequency with their leaders, free list a permutation of the unused group ids. -/
+theorem lh1_no_fault (src : Src) (n : Nat) (s : Res Lh1.St) (hs : Dec.Reach Lh1.dec src n s) :
+    (∀ w, Lh1.dec.read s ≠ .fault w) ∧
+    (∀ out s', Lh1.dec.read s = .ok (out, s') → out.length ≤ Gen.lh1MaxRead) :=
+  ⟨Lh1.run_no_fault src n s hs, fun out s' hr => Lh1.read_len src n s hs out s' hr⟩
+
+/-- every method name of `decoders[]` is served by one of the models above -/
+theorem all_methods_covered :
+    (Gen.decoderTable.map (·.1)) = ["-lz4-", "-lz5-", "-lzs-", "-lh0-", "-lh1-", "-lh4-", "-lh5-", "-lh6-",
+      "-lh7-", "-lhx-", "-lk7-", "-pm0-", "-pm1-", "-pm2-"] ∧
+    ∀ name ∈ Gen.decoderTable.map (·.1), (decoderFor name).isSome = true := by decide
 
 /-- Non-vacuity of the reachability hypothesis: the initial state of every decoder is reachable. -/
 example (src : Src) : Dec.Reach Pm2.dec src 0 (Pm2.dec.init src) ∧ Dec.Reach (LhNew.dec LhNew.lh5) src 0 (LhNew.init LhNew.lh5 src) :=
